@@ -154,6 +154,9 @@ def diff_snapshots(before, after):
                 names = (k[1],) if isinstance(k[1], str) else tuple(k[1])
                 if bvals is not None and all(n in bvals for n in names):
                     out.append('index %s.%s gained key %r for existing object %s' % (k[0], k[1], key, _name(obj)))
+            elif key not in idx and oid not in after['objs']:
+                # ... or at something that is no object of the session at all (what a refused constructor left)
+                out.append('index %s.%s gained key %r for an object that is not part of the session' % (k[0], k[1], key))
     return out
 
 
